@@ -44,7 +44,7 @@ CHECKS.update({
             "families and orders as in evidence", TECH),
     "C12": (A, MC, "self-composition: two merges of the same symbolic file set with independent map iteration orders give equal models / equal error lists; swapping adjacent files changes neither verdict nor the set of type definitions",
             "parser stub as C07; bounded file sets", TECH),
-    "C13": (A, MC, "frozen-object monitor: no store into anything reachable from the model/file list handed to the printer, the weighted builder and the merge; no store to package-level variables of the repository",
+    "C13": (A, MC, "frozen-object monitor: no store into anything reachable from the model/file list/string handed to the printer, the graph builders, the merge and the string entry points; global-store monitor: no store into a package-level variable of the hand-written packages nor into any object reachable from one (the channels through which calls could race or remember earlier calls); results independent of earlier builds, also with one builder instance reused",
             "data races, goroutines and parser-cache history are outside (not applicable to this technique)", TECH),
 })
 
@@ -55,9 +55,9 @@ CHECKS.update({
             "solver verdicts trusted; generated code beyond the ATN and tables is outside; JS/Java parsers are not run", "SMT regular-language (RegLan) equality queries"),
 })
 
-CHECKS["C01"] = (A, MC, "the real listener (walked by the real ParseTreeWalker over grammar-conforming parse trees built from the generated context classes), the real printer and again the listener: rendering the parser's model directly succeeds, the text is the canonical document, re-parsing gives the first model, the text is byte-stable; all tree shapes up to the bound, names symbolic",
-                 "lexer+parser replaced by the parser stub (contract validated natively on sampled witnesses through the real ParseDSL); protojson not encoded; bounded shapes", TECH)
-CHECKS["C03"] = (A + "+" + B, MC, "pre-pass lemmas on all byte strings up to the bound; listener lemma (model == direct reading of the tree, independent of optional layout tokens, comments, wrapped condition expressions, long operand chains) on generated parse trees; layout facts of the grammar as regular-language inclusions on the ATN (any length)",
+CHECKS["C01"] = (A, MC, "the real listener (walked by the real ParseTreeWalker over grammar-conforming parse trees built from the generated context classes), the real printer and again the listener: rendering the parser's model directly succeeds, the text is the canonical document, re-parsing gives the first model, the text is byte-stable; the JSON string API (TransformDSLToJSON, TransformJSONStringToDSL, LoadJSONStringToProto) executed end to end behind a protojson stub; all tree shapes up to the bound, names symbolic",
+                 "lexer+parser replaced by the parser stub, protojson by a structural-copy stub (both contracts validated natively on replayed witnesses and path samples through the real ParseDSL / protojson); bounded shapes", TECH)
+CHECKS["C03"] = (A + "+" + B, MC, "pre-pass lemmas on all byte strings up to the bound (line feeds and carriage returns as line ends, columns preserved); every generated parse tree is accepted rule by rule by the ATN of the Go parser; listener lemma (model == direct reading of the tree, independent of optional layout tokens, comments, wrapped condition expressions, long operand chains) on generated parse trees; layout facts of the grammar as regular-language inclusions on the ATN (any length)",
                  "ANTLR runtime conformance to its ATN is outside (residual); parser stub contract validated natively on sampled witnesses", TECH + " + RegLan inclusion queries on the ATN")
 CHECKS["C09"] = (A + "+" + B, MC, "grammar-level structural rules as regular-language inclusions on the ATN the Go parser interprets (any length); listener-raised rejections (duplicate relation/condition/parameter, extend under a model header, repeated extend) on generated trees whose names are symbolic: rejected iff a rule is broken, accepted documents reflect every declaration",
                  "that the ANTLR runtime reports every deviation from the ATN is outside (residual); parser stub", TECH + " + RegLan inclusion queries on the ATN")
@@ -66,7 +66,7 @@ CHECKS["C16"] = (A, MC, "SyntaxError stores line-1/column for arbitrary position
 
 CHECKS["C17"] = (A, MC, "the real plain graph code and gonum's multigraph, topo and DOT encoder executed on every model of the stated families: nodes and typed lines equal a spec graph computed independently from the rewrites, label lookup, reversal (every line flipped, direction flipped, nodes kept, twice = same DOT text), path duality for all label pairs, one DOT text per model across the explored map orders and ULID orders, compile-time cycle iff a pure computed cycle of two or more relations, none for acyclic models",
                  "gonum's map iterator (unsafe/go:linkname) is replaced by an equivalent plain-Go range loop for the executor and the native replay (harness/dep/gonum_iterator); orders limited to the stated sites; models outside the families are outside", TECH)
-CHECKS["C08"] = (A, MC, "panic monitor of the executor on degenerate protobuf models through the printer and both graph builders, arbitrary yaml nodes through TransformModFile, faulty module files through the merge, error-recovery parse trees through the listener, malformed lines through the line lookups; work bound: instructions executed by both graph builders, the printer and the merge on layered/nested model families whose path count is exponential in their size stay under a stated quadratic budget",
+CHECKS["C08"] = (A, MC, "panic monitor of the executor on degenerate protobuf models through the printer and both graph builders, arbitrary yaml nodes through TransformModFile, faulty module files through the merge, error-recovery parse trees through the listener, malformed lines through the line lookups; work bound: instructions executed by both graph builders, the cycle query, the printer, the merge and the listener on layered/nested/clique model families stay under a stated quadratic budget, and the weighted builder's work at doubled depth stays within the quadratic growth factor",
                  "only the hand-written code: arbitrary bytes through the ANTLR lexer/parser, protojson and yaml.v3 are outside (not encoded); the work bound is decided on the stated families only, the lexer's behaviour on form feeds is outside", TECH + " + instruction budget (zzverif.Budget)")
 
 NOT_APPLICABLE = {}
